@@ -12,6 +12,8 @@ import Desync.Model.VerifyIndex
 import Desync.Hash.Sha2
 import Desync.Model.Chunk
 import Desync.Model.ReadSeeker
+import Desync.Model.Sparse
+import Desync.Model.HttpHandler
 
 namespace Driver
 open Desync
@@ -317,6 +319,74 @@ def cmdIpOps (a : Args) : String :=
   let (_, _, out) := ops.foldl step (ip0, 0, [])
   String.intercalate "," out
 
+/-- `sparse.ops chunks= len= nullid= blobs= fail= ops=R0:10,S,O0,O1,O2,O3` -/
+def cmdSparseOps (a : Args) : String :=
+  let chunks := parseRChunks (a.get "chunks")
+  let blobs := parseBlobs (a.get "blobs")
+  let fails := natList (a.get "fail")
+  let fetch : Fetch := fun k id =>
+    if fails.contains k then none else
+    match blobs.lookup id with
+    | some [] => none
+    | x => x
+  let len := a.nat "len"
+  let nullID := a.nat "nullid"
+  let s0 := SparseSt.open fetch chunks nullID len [] none none 0
+  let ops := if (a.get "ops").isEmpty then [] else (a.get "ops").splitOn ","
+  let step (st : SparseSt × Option (List Bool) × List String) (op : String) :=
+    let (s, saved, out) := st
+    if op.startsWith "R" then
+      match ((op.drop 1).toString).splitOn ":" with
+      | [off, n] =>
+        match s.readAt fetch (off.toNat?.getD 0) (n.toNat?.getD 0) with
+        | (.data b eof, s') => (s', saved, out ++ ["d:" ++ toHex b ++ (if eof then ":eof" else "")])
+        | (.err, s') => (s', saved, out ++ ["x"])
+      | _ => (s, saved, out ++ ["bad-op"])
+    else if op == "S" then (s, some s.saveState, out ++ ["s"])
+    else if op.startsWith "O" then
+      let k := ((op.drop 1).toString).toNat?.getD 0
+      let file := if k == 2 then [] else if k == 3 then s.file.take (s.file.length / 2) else s.file
+      let state := if k == 1 then none else saved
+      -- a (re-)initialised sparse file writes its blank state over whatever state file was there
+      let accepted := match state with
+        | some st => decide (file.length = len) && decide (st.length = chunks.length)
+        | none => false
+      let saved' := if accepted then saved else some (List.replicate chunks.length false)
+      (SparseSt.open fetch chunks nullID len file state none s.calls, saved', out ++ ["o"])
+    else (s, saved, out ++ ["bad-op"])
+  let (_, _, out) := ops.foldl step (s0, some (List.replicate chunks.length false), [])
+  String.intercalate "," out
+
+def callStr : Call → String
+  | .getChunk id => "G:" ++ toHex id
+  | .hasChunk id => "H:" ++ toHex id
+  | .storeChunk id _ => "S:" ++ toHex id
+  | .getIndex n => "GI:" ++ toHex n
+  | .getIndexReader n => "GR:" ++ toHex n
+  | .storeIndex n => "SI:" ++ toHex n
+
+def methodOf : String → Method
+  | "GET" => .get | "HEAD" => .head | "PUT" => .put | _ => .other
+
+def tri (s : String) : Option Bool := if s == "1" then some true else if s == "0" then some false else none
+
+/-- `http.chunk` / `http.index`: one request against the chunk / index handler -/
+def cmdHttp (index : Bool) (a : Args) : String :=
+  let hexArg (k : String) : Bytes := (ofHex (a.get k)).getD []
+  let cfg : HandlerCfg := { auth := hexArg "auth", writable := a.bool "writable", skipVerifyWrite := a.bool "skipverify",
+                            compressed := a.bool "comp", storeIsWritable := a.bool "storewr" }
+  let getRes : Option (Option Bytes) :=
+    match a.get "get" with
+    | "ok" => some (some []) | "missing" => some none | _ => none
+  let o : StoreOracle := { getChunk := getRes, hasChunk := tri (a.get "has"), storeOK := a.bool "storeok",
+                           indexGet := tri (a.get "iget"), indexValid := a.bool "ivalid" }
+  let r : Request := { method := methodOf (a.get "method"), path := hexArg "path", authHeader := hexArg "hdr", body := hexArg "body" }
+  let decRes : Option Bytes :=
+    let d := a.get "dec"
+    if d.startsWith "ok:" then ofHex ((d.drop 3).toString) else none
+  let resp := if index then serveIndex cfg o r else serveChunk (digestOf (a.get "alg")) (fun _ => decRes) cfg o r
+  s!"{resp.status} " ++ String.intercalate "," (resp.calls.map callStr)
+
 def runLine (l : String) : String :=
   match l.splitOn " " with
   | [] => "bad-op"
@@ -328,6 +398,9 @@ def runLine (l : String) : String :=
     | "chunk.all" => cmdChunkAll a
     | "hash" => cmdHash a
     | "ip.ops" => cmdIpOps a
+    | "http.chunk" => cmdHttp false a
+    | "http.index" => cmdHttp true a
+    | "sparse.ops" => cmdSparseOps a
     | "chunk.fromstorage" => cmdFromStorage a
     | "verify.index" => cmdVerifyIndex a
     | "fmt.next" => cmdFmtNext a
